@@ -348,7 +348,7 @@ def ok (s : State) (c : Option Conn) : State × String :=
 
 /-- operations (see harness/cmd/onetharness/c15.go):
 `open c m`, `csend c m`, `wstart c n`, `emit c k v`, `svcclose c k`, `cread c`, `cleave c close|drop`,
-`wstop c k`, `hold c p`, `release c p`, `wheld c p`, `alive` -/
+`wstop c k`, `hold c p`, `release c p`, `wheld c p`, `flood c k v n`, `wexit c n`, `alive` -/
 def step (s : State) (toks : List String) : State × String :=
   match toks with
   | ["open", n, m] =>
@@ -388,6 +388,21 @@ def step (s : State) (toks : List String) : State × String :=
       (s, match c.st.streams[k]? with
           | some st => if st.stopClosed then "ok" else "timeout"
           | none => "timeout")
+    | _, _ => (s, "bad-op")
+  | ["flood", n, k, x, cnt] =>
+    -- the service keeps emitting (values x, x+1, …) as long as a forwarder takes them; how many
+    -- are taken depends on the schedule (a forwarder may give up on `stopAll`), so the
+    -- observation is constant
+    match k.toNat?, x.toNat?, cnt.toNat?, find s n with
+    | some k, some x, some cnt, some c =>
+      let c' := (List.range cnt).foldl (fun c i => (ext c (.emit k 0 (x + i))).getD c) c
+      (put s c', "ok")
+    | _, _, _, _ => (s, "bad-op")
+  | ["wexit", n, cnt] =>
+    -- wait until `cnt` forwarders of the connection have ended
+    match cnt.toNat?, find s n with
+    | some cnt, some c =>
+      (s, if cnt ≤ (c.st.streams.filter (fun st => !st.refused && st.fwd == .done)).length then "ok" else "timeout")
     | _, _ => (s, "bad-op")
   | ["hold", n, p] =>
     match find s n with
